@@ -529,3 +529,39 @@ def r11_4(ctx, rr):
 
 def rename_back(t, W, b):
     return t
+
+
+@rule("R05.6", props=["C05", "C06", "C12"], floor=4, title="growth extends the backend when (and only when) the new length exceeds the words actually present")
+def r05_6(ctx, rr):
+    """resize/push test the *length* of the backend (bits.len() * BITS), not its capacity, before the
+    unchecked stores that follow; the backend is then extended to ceil(new_len * width / BITS) words."""
+    F = ctx.F()
+    BITSV = ("def", "bits::bit_vec::BITS")
+    BITSW = ("def", "common_traits::AsBytes::BITS")
+    specs = [
+        (r"^bits::bit_vec::BitVec::resize$", lambda s, P: (mk_op("*", ("call", "len", (("field", s, "bits"),)), BITSV), P[1], "<"), "resize"),
+        (r"^bits::bit_field_vec::BitFieldVec::<W>::resize$", lambda s, P: (mk_op("*", ("call", "len", (("field", s, "bits"),)), BITSW), mk_op("*", P[1], ("field", s, "bit_width")), "<"), "resize"),
+        (r"^bits::bit_field_vec::BitFieldVec::<W>::push$", lambda s, P: (mk_op("*", ("call", "len", (("field", s, "bits"),)), BITSW), mk_op("*", mk_op("+", ("field", s, "len"), ("int", 1)), ("field", s, "bit_width")), "<"), "push"),
+        (r"^bits::bit_vec::BitVec::push$", lambda s, P: (mk_op("*", ("call", "len", (("field", s, "bits"),)), BITSV), ("field", s, "len"), "=="), "push"),
+    ]
+    for path, want_fn, grow in specs:
+        b = F.one(path)
+        P = [("var", p["name"], p["id"]) for p in b.params]
+        s = P[0]
+        lhs, rhs, op = want_fn(s, P)
+        T = Termizer(F, b)
+        found = None
+        for n in walk(b.body):
+            if n.get("k") == "If" and any(x.get("k") == "MethodCall" and x["name"] == grow and T.term(x["recv"]) == ("field", s, "bits") for x in walk(n["th"])):
+                found = n
+        rr.instances += 1
+        key = "%s:grows-on-length" % short_fn(b.key)
+        if found is None:
+            rr.violate(key, "reason=anchor-missing: %s: no `if <room test> { self.bits.%s(..) }` found" % (b.key, grow), b.span)
+            continue
+        atoms = cond_atoms(T, found["c"], True)
+        want = cmp_atoms(op, lhs, rhs, True)
+        ok = sorted(map(repr, atoms)) == sorted(map(repr, want))
+        rr.ob(ok, key=key, sample={"fn": b.key, "test": show(F, found["c"])[:120]})
+        if not ok:
+            rr.violate(key, "%s must extend the backend exactly when the bits needed exceed `self.bits.len() * BITS` (the words actually present, not the capacity); found the test `%s`" % (b.key, show(F, found["c"])[:160]), F.loc(found))
